@@ -803,7 +803,9 @@ pub fn main(args: &[String]) -> i32 {
 						None => *snap = expanded[*k].clone(),
 						Some(sn) =>
 							if expanded[*k].as_ref() != Some(sn) {
-								fail(&mut verdict, format!("locked-tree-changed step {si} root {k}: the tree changed while its reader lock was held"));
+								// after an F4 exposure: the insert of the locked tree may itself sit in the re-queued transaction and be
+								// overtaken by the dereference of a tree it shares nodes with (its children are then released under it)
+								fail(&mut verdict, format!("{} step {si} root {k}: the tree changed while its reader lock was held", if f4_exposed { "deferral-reorder" } else { "locked-tree-changed" }));
 							},
 					}
 				}
